@@ -35,6 +35,31 @@ static struct ghost {
 	int opens;		/* how often the file had been opened when last checked */
 } G[MAXF];
 static int cur, alt = -1, nids;
+static int mru[MAXF], nmru;	/* most recently used order of the open buffers, mru[0] == cur */
+static void mru_front(int f)
+{
+	int i, j;
+	for (i = 0; i < nmru && mru[i] != f; i++)
+		;
+	if (i == nmru)
+		nmru++;
+	for (j = i; j > 0; j--)
+		mru[j] = mru[j - 1];
+	mru[0] = f;
+	alt = nmru > 1 ? mru[1] : -1;
+}
+static void mru_drop(int f)
+{
+	int i;
+	for (i = 0; i < nmru && mru[i] != f; i++)
+		;
+	if (i < nmru) {
+		for (; i + 1 < nmru; i++)
+			mru[i] = mru[i + 1];
+		nmru--;
+	}
+	alt = nmru > 1 ? mru[1] : -1;
+}
 
 static char *menu[] = {
 	"s/a/b/",	/* 0: changes line 1 iff it contains an a */
@@ -56,8 +81,9 @@ static char *menu[] = {
 	"e! f%d",	/* 17: forced switch by path: leaves a modified buffer behind */
 	"e! f%d",	/* 18: (same as 17) */
 	"$a|w",		/* 19: edit and save within one command line (+ text block) */
+	"b !",		/* 20: delete the current buffer */
 };
-#define NMENU 20
+#define NMENU 21
 
 static int which(char *path)
 {
@@ -168,6 +194,10 @@ static void step(int c, int N)
 	int st, f, i, wasdirty, rowbefore, target = -1, prevalt = alt;
 	char line[32];
 	char *before;
+	if (c == 20)
+		symx_assume(nmru >= 2);
+	if ((c == 9 || c == 17 || c == 18) && nmru == 16 && !G[N - 1].open)
+		symx_assume(!dirty(mru[15]));	/* a 17th file recycles the oldest slot unchecked: outside the 16-buffer bound */
 	wasdirty = dirty(cur);
 	rowbefore = xrow;
 	before = exh_text();
@@ -190,8 +220,8 @@ static void step(int c, int N)
 			symx_assert(dirty(f) || G[f].disk != G[f].u, "a refused q switches to a buffer that is not at its saved state");
 			if (f != cur) {
 				G[cur].row = rowbefore;
-				alt = cur;
 				cur = f;
+				mru_front(f);
 			}
 		} else {
 			symx_reach("quit-allowed");
@@ -288,6 +318,14 @@ static void step(int c, int N)
 	case 14:
 		symx_assert(f == cur, "a line-number command does not switch buffers");
 		break;
+	case 20:	/* b !: the current buffer goes away, the alternate becomes current */
+		symx_reach("deleted");
+		G[cur].open = 0;
+		mru_drop(cur);
+		symx_assert(f == mru[0], "after deleting a buffer the most recently used other buffer is current");
+		cur = mru[0];
+		symx_assert(xrow == G[cur].row, "the current line of a revisited buffer is as it was left");
+		break;
 	}
 	if ((c >= 9 && c <= 13) || c == 17 || c == 18) {
 		int forced = c == 17 || c == 18;
@@ -305,11 +343,18 @@ static void step(int c, int N)
 			symx_assert(f == target, "the buffer reached is the one named");
 			if (f == target && target != cur) {
 				G[cur].row = rowbefore;
-				alt = cur;
 				cur = target;
 				if (!G[cur].open) {
+					if (nmru == 16) {	/* the table is full: the least recently used buffer is recycled */
+						int lru = mru[15];
+						symx_reach("evicted");
+						G[lru].open = 0;
+						mru_drop(lru);
+					}
 					opened(cur);
+					mru_front(cur);
 				} else {
+					mru_front(cur);
 					symx_reach("revisited");
 					symx_assert(nopens(cur) == G[cur].opens, "an open path is not read again");
 					symx_assert(xrow == G[cur].row, "the current line of a revisited buffer is as it was left");
@@ -329,7 +374,7 @@ void harness(void)
 	int i, k;
 	for (i = 0; i < MAXF; i++)
 		snprintf(fname[i], sizeof(fname[i]), "f%d", i + 1);
-	for (i = 0; i < NFILES; i++) {
+	for (i = 0; i < NFILES && i < MAXF; i++) {
 		unsigned char c = i < 4 ? symx_u8("c") : 'a';
 		symx_assume(c == 'a' || c == 'b');
 		snprintf(content, sizeof(content), "%cx%d\nl2\nl3\n", c, i + 1);
@@ -338,6 +383,7 @@ void harness(void)
 	exh_start(files);
 	cur = 0;
 	opened(0);
+	mru_front(0);
 #ifdef PREOPEN
 	/* fill the buffer table: an edit in the first buffers, then open the rest */
 	if (symx_conc(symx_u8("dirtyfirst") & 1)) {
@@ -354,7 +400,7 @@ void harness(void)
 		int c = symx_u8("cmd"), N = symx_u8("N");
 		symx_assume(c < NMENU);
 #ifdef PREOPEN
-		symx_assume(N == 1 || N == 2 || N == PREOPEN - 1 || N == PREOPEN);
+		symx_assume(N == 1 || N == 2 || N == PREOPEN - 1 || N == PREOPEN || N == PREOPEN + 1);
 #else
 		symx_assume(N >= 1 && N <= NFILES + 1 && N <= 4);
 #endif
